@@ -44,6 +44,15 @@ CLAIMED = {
             'Trusted: CPython ast, engine/bits.py, engine/wire.py, engine/pyx.py. DXT/ATI codecs, grey-scale means, bluescreen branches and pixel values are not claimed.',
             'static: wire-slot extraction per version + symbolic bit-provenance interpretation of codec pairs (Python and Cython) + guard-region extraction',
             'DESIGN.md section 3, C15'),
+    'C16': ('other',
+            'Static rules on fgd.py, _engine_db.py and _fgd_helpers.py: token-level wire extraction (engine/tokwire.py) of every serialise/unserialise pair of the binary database '
+            '(keyvalue records spawnflags/plain, I/O records, resource records tagged/untagged, tag lists, string dictionary, file header and block table), entity-header slot -> collection linkage, '
+            'header counts = records written, flag bits tested and masked on the same slot; folded code tables (completeness, index round trip, 7-bit capacity, type flags within the mask); '
+            'text tables and keyword agreement between writer and parser; line-token emission of KVDef/IODef export evaluated for every combination of empty/non-empty name, default, description '
+            'and value-type kind (no colon directly before end of line or "="), quoted-slot escape lint, long-string cut discipline, tokenizer options; lazy-loading structure of EngineDB.',
+            'Trusted: CPython ast, engine/tokwire.py, engine/fold.py, engine/wire.py (gate evaluator). Definition equality after a text round trip, the content of fgd.lzma and block packing are not claimed.',
+            'static: token-level wire extraction + folded tables + finite-domain line-token emission of the text writers',
+            'DESIGN.md section 3, C16'),
     'C13': ('other',
             'Static rules on vpk.py: CFG dominance of the writable-mode guard over every mutation of the file table / storage fields / archive files; '
             'wire agreement of the directory reader and writer (header and entry formats, entry slot -> FileInfo field linkage through the constructor, '
